@@ -138,7 +138,7 @@ def showDataset (d : Dataset) : String :=
 
 def showErr : Err → String
   | .eof => "eof"
-  | .shortString w => s!"short-string:{w}"
+  | .shortString w a => s!"short-string:{w}:{a}"
   | .badLength => "bad-length"
   | .badMagic => "bad-magic"
   | .badVersion => "bad-version"
@@ -177,7 +177,9 @@ def step (c : Cfg) (ws : List String) : Cfg × String :=
     | some now, some bs =>
       match decSnapshotT c.fix bs now with
       | .ok s _ al => (c, s!"ok {al.length} {maxOf al}" ++ showDataset s)
-      | .err e al => (c, s!"err {showErr e} {al.length} {maxOf al}")
+      | .err e al =>
+        let tr := (Ferrous.Rdb.Res.err e al : Ferrous.Rdb.Res Store).trace
+        (c, s!"err {showErr e} {tr.length} {maxOf tr}")
     | _, _ => (c, "bad-op")
   | "live" :: now :: toks =>
     match now.toNat?, parseDataset (if toks == ["."] then [] else toks) [] with
